@@ -41,6 +41,7 @@ TRUSTED_BASE = [
     "harness/extract_srcimpre.py (compile/importing.py: the regex of parse_source_type_name PARSED into the regex AST, re.match, the two branches; the head of get_type_reference = the unwrap block, composed with the dispatch fragment -> Gen/SrcImportingRe.lean) and lean/BpProofs/PyPreludeImpRe.lean (re.match = one attempt at position 0, `\\.` = [.], `.` = [^\\n], lstrip, WRAPPER_TYPES through the table regenerated by extract_importing.py)",
     "harness/extract_srcchan.py (grpc/util/async_channel.py: every method of AsyncChannel as a resumption program, try/finally on every exit path -> Gen/SrcChan.lean) and lean/BpProofs/PyPreludeChan.lean (the command tree, max / range / qsize / `is self.__flush`); the asyncio Queue / Task model of BpModel/Chan.lean stays hand-modelled (CPython is an external), and the task programs of the C12 model are tied to harness/chanloop.py by the lock-step correspondence only",
     "harness/extract_srcparser.py (plugin/parser.py: traverse / _traverse, the dispatch of read_protobuf_type and read_protobuf_service, the package / file loops of generate_code -> Gen/SrcParser.lean) and lean/BpProofs/PyPreludeParser.lean (descriptor objects as plain values, a generator as the list of what it yields, constructing a compiler object = one registration with its output template, dicts as insertion-ordered association lists, pathlib.Path as a list of parts with exists() as a parameter); validated by harness/tests/check_srcparser.py against the real plugin",
+    "harness/extract_srcgrpc.py (grpc/grpclib_client.py: __resolve_request_kwargs, the four call helpers, _send_messages; grpc/grpclib_server.py: _call_rpc_handler_server_stream; the __rpc_* adapters, stub methods, __mapping__ and default bodies as RENDERED by the template for the four cardinalities under the six option sets -> Gen/SrcGrpc.lean) and lean/BpProofs/PyPreludeGrpc.lean; BpModel/GrpcCall.lean models grpclib 0.4.9's client Stream flags / ProtocolError checks and FIFO delivery as the external (validated by the GCALL correspondence against real calls through grpclib's test channel)",
     "that each Lean statement in lean/BpProofs/Props says what the English property says",
 ]
 
